@@ -1,4 +1,5 @@
 """C20  Child processes get exact arguments; option parsing follows getopt rules."""
+import getopt as pygetopt
 import itertools
 import os
 import zlib
@@ -126,6 +127,129 @@ def ref_getopt(opts, words):
     return out
 
 
+# ---- cross-check of reference 1 with the standard library's getopt.gnu_getopt ---------------------------------------
+# on the class both speak about: flags without value / with required value, distinct alphanumeric option letters, distinct
+# non-empty alphanumeric long names, ASCII words, no abbreviated long options (the library matches long names exactly)
+PYGETOPT = {"agree": 0, "both-error": 0, "skipped": 0}
+
+
+def _alnum(b):
+    return bool(b) and all(48 <= c <= 57 or 65 <= c <= 90 or 97 <= c <= 122 for c in b)
+
+
+def pygetopt_check(opts, words, res):
+    """None = not in the common class; True/False = gnu_getopt agrees / disagrees with `res`"""
+    if os.environ.get("POSIXLY_CORRECT") is not None:
+        return None
+    chars = [o[0] for o in opts]
+    names = [o[1] for o in opts if o[1] is not None]
+    if (any(o[2] not in (0, 1) for o in opts) or len(set(chars)) != len(chars) or len(set(names)) != len(names)
+            or not all(0 < c < 128 and _alnum(bytes([c])) for c in chars) or not all(_alnum(n) for n in names)
+            or any(any(c >= 128 or c == 0 for c in w) for w in words)):
+        return None
+    for w in words:
+        if w.startswith(b"--") and len(w) > 2:
+            x = w[2:].partition(b"=")[0]
+            if x not in names and any(n.startswith(x) for n in names):
+                return None                   # an abbreviation: accepted by gnu_getopt, not by the library
+    short = "".join(chr(o[0]) + (":" if o[2] & 1 else "") for o in opts)
+    longs = [o[1].decode() + ("=" if o[2] & 1 else "") for o in opts if o[1] is not None]
+    try:
+        po, pa = pygetopt.gnu_getopt([w.decode("latin-1") for w in words], short, longs)
+    except pygetopt.GetoptError:
+        return any(c in (63, 58) for c, _ in res)
+    if any(c in (63, 58) for c, _ in res):
+        return False
+    byname = {o[1].decode(): o[0] for o in opts if o[1] is not None}
+    mine_o = [(c, a) for c, a in res if c != 0]
+    mine_a = [a for c, a in res if c == 0]
+    theirs = [((byname[k[2:]] if k.startswith("--") else ord(k[1])), v.encode("latin-1")) for k, v in po]
+    return theirs == mine_o and [a.encode("latin-1") for a in pa] == mine_a
+
+
+# ---- independent reference 3: Process::wait / interrupt / join at the level of the property ---------------------------
+class WaitRef:
+    """wait(list) returns null when an interrupt is pending (and consumes it); otherwise the terminated child the kernel
+    reports (the oldest one) if its object is in the list, null if it is not, null at once when there is no child at all;
+    otherwise it blocks until interrupted.  interrupt() sets the pending flag (once).  join/kill reap exactly their child."""
+
+    def __init__(self):
+        self.objs, self.pend, self.seq = [None] * 4, False, 0
+
+    def end(self):
+        kids = [o for o in self.objs if o]
+        return f" pend={int(self.pend)} kids={len(kids)} zombies={sum(1 for o in kids if o['z'])}"
+
+    def oldest_zombie(self):
+        z = [(o["seq"], i) for i, o in enumerate(self.objs) if o and o["z"]]
+        return min(z)[1] if z else None
+
+    def blocks(self, lst):
+        """would wait(lst) block without an interrupt?"""
+        if self.pend:
+            return False
+        if not lst:
+            return True
+        return self.oldest_zombie() is None and any(self.objs)
+
+    def step(self, t):
+        op = t[1]
+        if op == "new":
+            self.__init__()
+            return "w new" + self.end()
+        if op == "intr":
+            self.pend = True
+            return "w intr" + self.end()
+        if op == "wait":
+            lst = [] if t[2] == "-" else [int(c) for c in t[2]]
+            ms = int(t[3])
+            if self.pend:
+                self.pend, ret, late = False, None, ms > 0
+            elif not lst:
+                if ms == 0:
+                    return "BLOCK"
+                ret, late = None, False
+            else:
+                z = self.oldest_zombie()
+                if z is not None:
+                    ret, late = (z if z in lst else None), ms > 0
+                elif not any(self.objs):
+                    ret, late = None, ms > 0
+                elif ms == 0:
+                    return "BLOCK"
+                else:
+                    ret, late = None, False
+            if late:
+                self.pend = True              # the other thread's interrupt() came after the return
+            return ("w wait ret=null" if ret is None else f"w wait ret={ret} term=1") + self.end()
+        i = int(t[2])
+        o = self.objs[i]
+        if op == "start":
+            if o:
+                return "w start ok=0" + self.end()
+            self.seq += 1
+            self.objs[i] = {"z": t[3] == "z", "code": int(t[4]) if t[3] == "z" else 0, "seq": self.seq}
+            return "w start ok=1" + self.end()
+        if op == "die":
+            if not o or o["z"]:
+                return "w die ok=0" + self.end()
+            o["z"], o["code"] = True, 0       # terminated by a signal: WEXITSTATUS 0
+            return "w die ok=1" + self.end()
+        if op == "join":
+            if not o:
+                return "w join ok=0 code=-" + self.end()
+            if not o["z"]:
+                return "BLOCK"
+            self.objs[i] = None
+            return f"w join ok=1 code={o['code']}" + self.end()
+        if op == "kill":
+            if not o:
+                return "w kill ok=0" + self.end()
+            self.objs[i] = None
+            return "w kill ok=1" + self.end()
+        return "bad-op"
+
+
 # ---- independent reference 2: the documented quoting rules of the command-line form --------------------------
 def ref_split(s):
     """words are separated by single blanks (every blank ends a word, also an empty one; a trailing empty word is
@@ -190,8 +314,18 @@ def ref_line(line, penv=None):
     op = t[0]
     if op == "reset":
         return "ready"
+    if op == "args0":
+        return "r end"                        # argc == 0: nothing to deliver
     if op == "args":
-        res = ref_getopt(parse_opts(t[1]), [unhx(w) for w in t[2:]])
+        opts, words = parse_opts(t[1]), [unhx(w) for w in t[2:]]
+        res = ref_getopt(opts, words)
+        agree = pygetopt_check(opts, words, res)
+        if agree is None:
+            PYGETOPT["skipped"] += 1
+        elif not agree:
+            return "r REFERENCE-DISAGREES-WITH-PYTHON-GETOPT"
+        else:
+            PYGETOPT["both-error" if any(c in (63, 58) for c, _ in res) else "agree"] += 1
         return "r" + "".join(f" {c}:{hx(a)}" for c, a in res) + " end"
     if op == "split":
         if line in RENDER_EXPECT:             # a rendered argument vector: the vector itself is expected
@@ -221,6 +355,14 @@ def ref_line(line, penv=None):
                 f"err={f'{n}:{pattern_crc(n, seed + 1):08x}' if m & 2 else z}")
     if op == "exit":
         return f"exit ok=1 | running=1 joined=1 code={int(t[1])} after=0"
+    if op == "pexit":                         # Process::exit(code) ends the calling process with that status
+        return f"pexit ok=1 code={int(t[1]) & 255}"
+    if op == "ids":
+        return "ids pid=1 exe=1"
+    if op == "io2":
+        n, seed, code = int(t[1]), int(t[2]), int(t[3])
+        return (f"io2 ok=1 pipes=5 | joined=1 exit={code} eof=1 written={n} closedrefuses=1 in={n}:{pattern_crc(n, seed + 2):08x} "
+                f"out={n}:{pattern_crc(n, seed):08x} after=0")
     return "bad-op"
 
 
@@ -231,12 +373,26 @@ def ref_proc(t, st):
     if op == "new":
         st[:] = [0, 0, 0, 0, None]
         return shown(1)
-    if op in ("start", "open"):
+    if op == "openfailpipe":              # the k-th pipe() fails (EMFILE): nothing changes; with fewer pipes than k the open succeeds
+        m, k = int(t[2]) & 7, int(t[3])
         if st[0]:
-            return shown(0) + (" | pid=0 einval=1" if op == "start" else " | einval=1")
-        m = int(t[2]) if op == "open" else 0
+            return shown(0) + " | einval=1"
+        if 1 <= k <= bin(m).count("1"):
+            return shown(0) + " | einval=0"
+        st[:] = [1, m & 1, m & 2, m & 4, 0]
+        return shown(1) + " | einval=0"
+    if op in ("start", "open", "startargv", "opencmd"):
+        isstart = op.startswith("start")
+        if st[0]:
+            return shown(0) + (" | pid=0 einval=1" if isstart else " | einval=1")
+        m = 0 if isstart else int(t[2])
         st[:] = [1, m & 1, m & 2, m & 4, int(t[-1])]
-        return shown(1) + (" | pid=new einval=0" if op == "start" else " | einval=0")
+        return shown(1) + (" | pid=new einval=0" if isstart else " | einval=0")
+    if op == "joinv":
+        if not st[0]:
+            return shown(0) + " | einval=1"
+        st[:] = [0, 0, 0, 0, None]
+        return shown(1) + " | einval=0"
     if op == "openfail":              # vfork fails (EAGAIN): nothing changes; EINVAL when a child is still attached
         return shown(0) + f" | einval={1 if st[0] else 0}"
     if op in ("join", "kill"):
@@ -271,6 +427,8 @@ def ref_env(t, penv):
         else:
             penv.pop(k, None)
         return "e ok=1"
+    if t[1] == "putraw":                  # an entry without `=` in environ is not a variable: nothing to see through the API
+        return "e ok=1"
     if t[1] == "get":
         return "e val=" + hx(penv.get(unhx(t[2]), unhx(t[3])))
     if t[1] == "all":
@@ -281,10 +439,13 @@ def ref_env(t, penv):
 def reference(hist):
     st = [0, 0, 0, 0, None]
     penv = {}
+    wref = WaitRef()
     out = []
     for l in hist:
         t = l.split()
-        if t[0] == "p":
+        if t[0] == "w":
+            out.append(wref.step(t))
+        elif t[0] == "p":
             out.append(ref_proc(t, st))
         elif t[0] == "env":
             out.append(ref_env(t, penv))
@@ -365,6 +526,15 @@ def args_line(table, words):
 
 def exhaustive_args(maxlen):
     return [args_line(TABLE, ws) for n in range(maxlen + 1) for ws in itertools.product(WORDS, repeat=n)]
+
+
+# second exhaustive scope: a table with duplicate letters / names, the letters '-' and ':', an empty long name
+TABLE2 = "45.~.0,58.~.1,97.~.0,97.616c706861.1,120.-.1,121.616c706861.0,122.-.0"
+WORDS2 = [b"-a", b"--", b"-", b"-:", b"-:v", b"--=v", b"--=", b"---", b"-a-", b"--alpha", b"--alpha=v", b"v", b"-x", b"-xa"]
+
+
+def exhaustive_args2(maxlen):
+    return [args_line(TABLE2, ws) for n in range(maxlen + 1) for ws in itertools.product(WORDS2, repeat=n)]
 
 
 def rand_word(rng):
@@ -489,6 +659,11 @@ def proc_histories(rng, quick):
             h.append(rng.choice(POPS) if k < 0.6 else f"p open {rng.randrange(8)} {rng.randrange(256)}" if k < 0.75
                      else f"p close {rng.randrange(8)}" if k < 0.85 else f"p read3 {rng.randrange(8)}" if k < 0.95 else f"p start {rng.randrange(256)}")
         hs.append(h)
+    extra = ["p joinv", "p startargv 9", "p opencmd 3 8", "p opencmd 7 1", "p openfailpipe 7 1", "p openfailpipe 7 2", "p openfailpipe 7 3",
+             "p openfailpipe 5 2", "p openfailpipe 2 1", "p openfailpipe 1 2", "p openfailpipe 0 1"]
+    hs += [[a, b] for a in extra for b in extra + POPS[:8]] + [[b, a] for a in extra for b in POPS[:4]]
+    for _ in range(100 if quick else 1000):
+        hs.append([rng.choice(extra + POPS) for _ in range(rng.choice([4, 7, 10]))])
     hs.append([f"killtest {m}" for m in range(4)])
     hs.append([f"fdtable {m}" for m in range(8)])
     return [h + ["p new", "fds"] for h in hs]
@@ -517,6 +692,16 @@ def env_histories(rng, quick):
                 streams = 0 if form.startswith("start") else rng.choice([0, 1, 3])
                 h.append(f"run {form} {streams} {rng.choice(ENVS[:2])} {hx(b'a')}")
         hs.append(h)
+    # entries without `=` put into environ by the application itself are skipped by getEnvironmentVariables (no launches here:
+    # such an entry is inherited by a child as it is)
+    for _ in range(10 if quick else 100):
+        h = []
+        for _ in range(rng.choice([3, 6])):
+            k = rng.random()
+            h.append(f"env putraw {hx(rng.choice([b'NVT_RAW', b'NVT_A', b'NVT_zz9']))}" if k < 0.4 else
+                     f"env set {hx(rng.choice(ENV_NAMES))} {hx(rng.choice(ENV_VALUES))}" if k < 0.6 else
+                     f"env get {hx(rng.choice(ENV_NAMES + [b'NVT_RAW']))} {hx(b'dflt')}" if k < 0.8 else "env all")
+        hs.append(h + ["env all"])
     return hs
 
 
@@ -539,6 +724,56 @@ def late_histories(rng, quick):
     hs.append([f"sig {m} {sg}" for m in (0, 1, 7) for sg in (9, 15, 2, 10)] + ["fds"])
     hs.append([f"killbusy {m}" for m in (0, 1, 2, 3, 7)] + ["fds"])
     return hs
+
+
+def wait_histories(rng, quick):
+    """Process::wait / interrupt: scripted scenarios + random histories steered by the reference so that no call blocks
+    for ever (a wait that would block gets an interrupter thread)"""
+    hs = [
+        ["w new", "w start 0 z 7", "w start 1 r", "w wait 10 0 0", "w wait 01 0 0", "w join 0", "w wait 1 30 -", "w kill 1", "w wait 01 0 -"],
+        ["w new", "w intr", "w intr", "w wait - 0 -", "w wait - 30 -", "w start 2 z 3", "w intr", "w wait 2 0 2", "w wait 2 0 2", "w join 2"],
+        ["w new", "w start 0 r", "w start 1 z 5", "w wait 0 0 1", "w wait 0 0 1", "w join 1", "w die 0", "w wait 0 0 0", "w join 0"],
+        ["w new", "w start 3 z 255", "w start 2 z 0", "w start 1 z 1", "w wait 123 0 3", "w join 3", "w wait 123 0 2", "w join 2", "w wait 123 0 1",
+         "w join 1", "w wait 123 0 -", "w intr", "w wait 123 0 -"],
+        ["w new", "w start 0 r", "w wait 0 30 -", "w wait 0 30 -", "w intr", "w start 1 z 9", "w wait 01 0 1", "w wait 01 0 1", "w join 1", "w kill 0"],
+        ["w new", "w start 0 z 4", "w wait 0 30 0", "w wait 0 0 0", "w wait 0 0 0", "w join 0", "w join 0", "w kill 0", "w die 0"],
+    ]
+    for _ in range(120 if quick else 1500):
+        ref, h = WaitRef(), ["w new"]
+        for _ in range(rng.choice([4, 8, 12, 16])):
+            k = rng.random()
+            i = rng.randrange(4)
+            if k < 0.22:
+                l = f"w start {i} z {rng.choice([0, 1, 7, 200, 255])}"
+            elif k < 0.34:
+                l = f"w start {i} r"
+            elif k < 0.42:
+                l = f"w die {i}"
+            elif k < 0.57:
+                l = f"w join {i}"
+            elif k < 0.62:
+                l = f"w kill {i}"
+            elif k < 0.72:
+                l = "w intr"
+            else:
+                n = rng.choice([0, 1, 1, 2, 3, 4])
+                lst = rng.sample(range(4), n)
+                ms = 30 if ref.blocks(lst) else (30 if rng.random() < 0.04 else 0)
+                z = ref.oldest_zombie()
+                l = f"w wait {''.join(map(str, lst)) or '-'} {ms} {'-' if z is None else z}"
+            t = l.split()
+            if t[1] == "join" and ref.objs[i] and not ref.objs[i]["z"]:
+                l = f"w die {i}"              # joining a running child would block: let it terminate instead
+            ref.step(l.split())
+            h.append(l)
+        hs.append(h)
+    return [h + ["w new", "fds"] for h in hs]
+
+
+def misc_lines(rng, quick):
+    ls = [f"pexit {c}" for c in ([0, 1, 7, 42, 255, 256, 300] if quick else range(0, 300, 7))] + ["ids", "args0"]
+    ls += [f"io2 {n} {rng.randrange(250)} {rng.choice([0, 3, 77])}" for n in ([0, 1, 4096, 65536, 200000] if quick else [0, 1, 4095, 4096, 4097, 65536, 65537, 200000, 1 << 20])]
+    return ls
 
 
 def execfail_lines():
@@ -618,7 +853,10 @@ def histories_for(ctx):
     ph = proc_histories(rng, quick)
     eh = env_histories(rng, quick)
     lh = late_histories(rng, quick)
-    hs = corpus + ph + eh + chunks(ea, 40) + chunks(ra, 40) + chunks(es + es2, 40) + chunks(rs, 40) + [c + ["fds"] for c in chunks(rl, 8) + chunks(il, 3) + chunks(xl, 8) + chunks(execfail_lines(), 6)]
+    wh = wait_histories(rng, quick)
+    ea2 = exhaustive_args2(3 if quick else 4)
+    ml = misc_lines(rng, quick)
+    hs = corpus + ph + eh + wh + chunks(ea2, 40) + [c + ["fds"] for c in chunks(ml, 4)] + chunks(ea, 40) + chunks(ra, 40) + chunks(es + es2, 40) + chunks(rs, 40) + [c + ["fds"] for c in chunks(rl, 8) + chunks(il, 3) + chunks(xl, 8) + chunks(execfail_lines(), 6)]
     # the histories with waiting children are spread over the list so that they land in different parallel chunks
     step = max(1, len(hs) // (len(lh) + 1))
     for i, h in enumerate(lh):
